@@ -161,6 +161,8 @@ CORPUS = [
     {"grammar": "Model: a=A; A[noskipws]: (x+=ID)*;\n", "opts": {}, "inputs": ["a b", "ab", " ab"], "tag": "corpus-modifier-on-repetition2"},
     {"grammar": "Model: es+=E; E: 'e' A B | A | 'm' B 'x' A; A: 'a' x=INT; B: 'b' y=INT;\n", "opts": {},
      "inputs": ["e a 1 b 2 a 3 m b 4 x a 5", "a 1", "e a 1"], "tag": "corpus-abstract-first-nonterminal"},
+    {"grammar": "Model: es+=E; E: 'e' W A B | W A | A; W: 'w' INT; A: 'a' x=INT; B: 'b' y=INT;\n", "opts": {},
+     "inputs": ["e w 1 a 2 b 3 w 4 a 5 a 6", "w 1 a 2"], "tag": "corpus-abstract-first-nonmatch"},
     {"grammar": "Model: 'm' ts+=T; T: 't' flag?='!' n=INT s=STRING? f=FLOAT? b=BOOL? i=ID?;\n", "opts": {"auto_init_attributes": False},
      "inputs": ["m t 1 t ! 2 's' 1.5 true x", "m t 0"], "tag": "corpus-defaults-noauto"},
     {"grammar": "Model: 'm' ts+=T; T: 't' flag?='!' n=INT s=STRING? f=FLOAT? b=BOOL? i=ID?;\n", "opts": {},
@@ -170,8 +172,220 @@ CORPUS = [
 ]
 
 
+# ---------------------------------------------------------------- documented rule kinds (from the grammar AST)
+def _walk(e):
+    yield e
+    k = e[0]
+    if k in ("seq", "alt"):
+        for x in e[1]:
+            yield from _walk(x)
+    elif k == "rep":
+        yield from _walk(e[2])
+    elif k == "pred":
+        yield from _walk(e[2])
+    elif k == "sup":
+        yield from _walk(e[1])
+
+
+def spec_kinds(g):
+    """The documented rule kinds, computed from the grammar the generator produced (independent of textX):
+    common iff the rule has assignments; otherwise abstract iff it references at least one rule that is common or
+    abstract (least fixpoint over the reference graph, so cycles and definition order do not matter); otherwise match."""
+    rules = {n: b for n, _, b in g["rules"]}
+    has_asg = {n: any(x[0] == "asg" for x in _walk(b)) for n, b in rules.items()}
+    refs = {n: [x[1] for x in _walk(b) if x[0] == "ref"] for n, b in rules.items()}
+    nonmatch = {n for n in rules if has_asg[n]}
+    changed = True
+    while changed:
+        changed = False
+        for n in rules:
+            if n not in nonmatch and any(y in nonmatch for y in refs[n]):
+                nonmatch.add(n)
+                changed = True
+    return {n: ("common" if has_asg[n] else ("abstract" if n in nonmatch else "match")) for n in rules}
+
+
+def check_kinds(case, res):
+    """grammar-level oracle: the kind of every compiled rule is the documented one"""
+    g = case.get("ast")
+    if not g:
+        return []
+    want = dict(spec_kinds(g), **case.get("kinds", {}))
+    bad = []
+    seen = set()
+    for e in res["mm"]:
+        if e["k"] == "rule" and e["cls"] in want and e["cls"] not in seen:
+            seen.add(e["cls"])
+            if e["type"] != want[e["cls"]]:
+                bad.append("rule %s is a %s rule in the metamodel, the grammar makes it %s" % (e["cls"], e["type"], want[e["cls"]]))
+    return bad
+
+
+def documented_mm(case, res):
+    """the dumped metamodel with the rule kinds replaced by the documented ones (generated grammars only), so that
+    the model side of the comparison does not believe a wrong kind"""
+    g = case.get("ast")
+    if not g:
+        return res["mm"]
+    want = spec_kinds(g)
+    return [dict(e, type=want[e["cls"]]) if e["k"] == "rule" and e["cls"] in want else e for e in res["mm"]]
+
+
+# grammars whose point is the rule-kind fixpoint: assignment-less rules that refer to each other (cycles through
+# guarded references, forward and backward in the text), to common rules and to match rules
+_KIND_COMMON = [("Num", ("asg", "v", "=", ("ref", "INT"), None, False)),
+                ("Nm", ("seq", [("str", "n"), ("asg", "name", "=", ("ref", "ID"), None, False)])),
+                ("Pr", ("seq", [("str", "p"), ("asg", "a", "=", ("ref", "INT"), None, False), ("asg", "b", "?=", ("str", "!"), None, False)]))]
+_KIND_MATCH = [("Kw", ("alt", [("str", "kw"), ("str", "k")])), ("Wd", ("seq", [("str", "w"), ("ref", "FLOAT")]))]
+_KIND_GUARDS = [("(", ")"), ("[", "]"), ("<", ">"), ("q", None), ("g", ";")]
+_KIND_NAMES = ["Value", "Group", "Expr", "Term"]
+
+
+def gen_kind_grammar(r):
+    commons = r.sample(_KIND_COMMON, r.range(1, 2))
+    matches = r.sample(_KIND_MATCH, r.range(0, 2))
+    nl = r.range(2, 4)
+    links = _KIND_NAMES[:nl]
+    rank = dict(zip(r.shuffle(links), range(nl)))
+    guards = r.shuffle(_KIND_GUARDS)
+    only_match = r.chance(0.15) and matches          # a family that must stay match
+    leaves = [n for n, _ in (matches if only_match else commons + matches)]
+    rules = []
+    cyc = False
+    for i, name in enumerate(links):
+        alts = []
+        higher = [x for x in links if rank[x] > rank[name]]
+        if i > 0 and r.chance(0.45):
+            # a pure wrapper: its kind depends only on the rule it wraps (which may be defined before or after it and
+            # may itself depend on this rule) - the situation the multi-pass kind resolution exists for
+            o, c = guards[i % len(guards)]
+            tgt = r.choice([x for x in links if x != name])
+            cyc = True
+            body = ("seq", [("str", o), ("ref", tgt)] + ([("str", c)] if c else []))
+            if matches and r.chance(0.4):
+                body = ("alt", r.shuffle([body, ("ref", matches[0][0])]))
+            rules.append((name, {}, body))
+            continue
+        # a guarded reference to any link rule (cycles, self reference, backward reference)
+        if r.chance(0.75) or (i == nl - 1 and not cyc):
+            lo = [x for x in links if rank[x] <= rank[name]]
+            tgt = r.choice(lo) if (r.chance(0.7) or not cyc) else r.choice(links)
+            cyc = cyc or rank[tgt] <= rank[name]
+            o, c = guards[i % len(guards)]
+            alts.append(("seq", [("str", o), ("ref", tgt)] + ([("str", c)] if c else [])))
+        if higher and r.chance(0.7):
+            alts.append(("ref", r.choice(higher)))       # unguarded, forward in rank: no left recursion
+        if not alts or r.chance(0.6) or not higher:
+            leaf = r.choice(leaves)
+            alts.append(("ref", leaf) if r.chance(0.7) else ("seq", [("str", "x"), ("ref", leaf)]))
+        alts = r.shuffle(alts)
+        if r.chance(0.5):                      # link references first, the deciding leaf last
+            alts = [a for a in alts if a[0] == "ref" and a[1] in links] + [a for a in alts if not (a[0] == "ref" and a[1] in links)]
+        rules.append((name, {}, alts[0] if len(alts) == 1 else ("alt", alts)))
+    top = r.choice(links)
+    style = r.below(3)
+    if style == 0:
+        root = [("Model", {}, ("asg", "items", "+=", ("ref", "Item"), None, False)),
+                ("Item", {}, ("seq", [("str", "item"), ("asg", "value", "=", ("ref", top), None, False), ("str", ";")]))]
+    elif style == 1:
+        root = [("Model", {}, ("asg", "vs", "+=", ("ref", top), ("str", ","), False))]
+    else:
+        root = [("Model", {}, ("seq", [("str", "m"), ("rep", "*", ("asg", "vs", "+=", ("ref", top), None, False), None, False),
+                                      ("rep", "?", ("asg", "last", "=", ("ref", r.choice(links)), None, False), None, False)]))]
+    rest = rules + [(n, {}, b) for n, b in commons] + [(n, {}, b) for n, b in matches]
+    return {"rules": root[:1] + r.shuffle(root[1:] + rest), "comment": None}
+
+
+def _heights(g):
+    INF = 10 ** 6
+    H = {n: INF for n, _, _ in g["rules"]}
+
+    def h(e):
+        k = e[0]
+        if k in ("str", "re"):
+            return 0
+        if k == "ref":
+            return 0 if e[1] not in H else min(INF, 1 + H[e[1]])
+        if k == "seq":
+            return max(h(x) for x in e[1])
+        if k == "alt":
+            return min(h(x) for x in e[1])
+        if k == "rep":
+            return h(e[2]) if e[1] == "+" else 0
+        if k == "asg":
+            return 0 if e[2] in ("?=", "*=") else h(e[3])
+        return h(e[2]) if k == "pred" else h(e[1])
+    for _ in range(len(H) + 1):
+        for n, _, b in g["rules"]:
+            H[n] = h(b)
+    return H, h
+
+
+def derive_valid(r, g, depth=5):
+    """a sentence of the grammar (kind grammars: no predicates / suppression / regexes), tokens separated by blanks;
+    when the depth budget is used up the shallowest alternatives are taken, so the derivation always terminates"""
+    rules = {n: b for n, _, b in g["rules"]}
+    H, h = _heights(g)
+    out = []
+
+    def d(e, depth):
+        k = e[0]
+        if k == "str":
+            out.append(e[1])
+        elif k == "ref":
+            if e[1] in rules:
+                if H[e[1]] >= 10 ** 6:
+                    out.append("a")            # a rule without a finite sentence (e.g. V: '[' V ']';)
+                else:
+                    d(rules[e[1]], depth - 1)
+            else:
+                out.append(r.choice(peggen.BASE[e[1]]))
+        elif k == "seq":
+            for x in e[1]:
+                d(x, depth)
+        elif k == "alt":
+            alts = e[1]
+            if depth <= 0:
+                m = min(h(x) for x in alts)
+                alts = [x for x in alts if h(x) == m]
+            d(r.choice(alts), depth)
+        elif k == "rep":
+            n = r.range(0, 2) if depth > 0 else 0
+            if e[1] == "+":
+                n = max(n, 1)
+            if e[1] == "?":
+                n = min(n, 1)
+            for j in range(n):
+                if j and e[3]:
+                    out.append(e[3][1])
+                d(e[2], depth)
+        elif k == "asg":
+            op = e[2]
+            n = 1 if op == "=" else (r.range(0, 1) if op == "?=" else r.range(0 if op == "*=" else 1, 3))
+            for j in range(n):
+                if j and e[4]:
+                    out.append(e[4][1])
+                d(e[3], depth)
+    d(rules[g["rules"][0][0]], depth)
+    return r.choice([" ", " ", "\n", "  "]).join(out)
+
+
+def gen_kind_cases(chk, n, per, files=False):
+    cases = []
+    for i in range(n):
+        r = chk.rng.split("k%d" % i)
+        g = gen_kind_grammar(r)
+        opts = {}
+        if r.chance(0.4):
+            opts["auto_init_attributes"] = False
+        inputs = [derive_valid(r.split("v%d" % k), g) for k in range(per)] + [peggen.gen_input(r.split("i%d" % k), g, opts) for k in range(1)]
+        cases.append({"grammar": peggen.grammar_text(g), "opts": opts, "inputs": inputs, "tag": "kinds", "files": files, "ast": g})
+    return cases
+
+
 def gen_cases(chk, n, per, files=False, features=None):
     cases = [dict(c, files=files) for c in CORPUS]
+    cases += gen_kind_cases(chk, max(30, n // 4), 2, files)
     for i in range(n):
         r = chk.rng.split("g%d" % i)
         style = r.weighted([("plain", 5), ("ctx", 3)])
@@ -217,7 +431,7 @@ def coq_defs(results):
             continue
         d = res["dump"]
         defs.append("Definition g%d : grammar := %s.\nDefinition c%d : config := %s.\nDefinition m%d : list ninfo := %s." % (
-            ci, pegdump.coq_grammar(d), ci, pegdump.coq_config(d), ci, mmdump.coq_mm(res["mm"])))
+            ci, pegdump.coq_grammar(d), ci, pegdump.coq_config(d), ci, mmdump.coq_mm(documented_mm(case, res))))
     return "\n".join(defs)
 
 
